@@ -109,8 +109,7 @@ def run_case(chunks, plans):
                 got = _surplus(r, name)
                 if k == len(chunk) and got not in (0, ""):
                     return f"chunk {ci}: surplus {name} after all fields returned {got!r} (data {data.hex()})"
-            if r.remaining < 0:
-                return f"chunk {ci}: remaining {r.remaining}"
+            # no property reads between the plan's reads and next_chunk(): an observation must not perturb the reader
             r.next_chunk()
         if r.remaining != 0 or r.position != len(data):
             return f"after the last chunk remaining={r.remaining} position={r.position} len={len(data)}"
@@ -133,6 +132,22 @@ def _shard(shard):
     return count, len(lists), bad
 
 
+LADDER = (8, 16, 23, 24, 25, 32, 64, 128, 256, 300)
+
+
+def ladder_cases():
+    """Long strings (the framing must not depend on data length): a long sanitised string in the first chunk, then a
+    short chunk that must still be read correctly, under a few plans."""
+    out = []
+    for L in LADDER:
+        for s in ("ÿ" + "a" * (L - 1), "a" * (L - 1) + "ÿ", "a" * (L // 2) + "ÿ" + "b" * (L - L // 2 - 1)):
+            for kind in ("str", "estr"):
+                chunks = [(("char", 7), (kind, s)), (("short", 253),), (("str", "tail"),)]
+                for plans in ([(2, ()), (1, ()), (1, ())], [(0, ()), (1, ("get_int",)), (1, ())], [(1, ("get_char",)), (0, ()), (1, ())]):
+                    out.append((chunks, plans))
+    return out
+
+
 def run(tier, seed):
     loader.install_shims()
     quick = tier == "quick"
@@ -150,6 +165,13 @@ def run(tier, seed):
     three = [t for t in itertools.product(redq, repeat=3)]
     jobs += [(c, SURPLUS_RED, 2 if not quick else 1) for c in par.chunks(three, W)]
     res = par.pmap(_shard, jobs)
+    lad = ladder_cases()
+    lad_bad = []
+    for chunks, plans in lad:
+        w = run_case(chunks, plans)
+        if w and len(lad_bad) < 3:
+            lad_bad.append(({"chunks": [list(map(list, c)) for c in chunks], "plans": [[k, list(s)] for k, s in plans]}, w))
+    res.append((len(lad), 0, lad_bad))
     count = sum(r[0] for r in res)
     nlists = sum(r[1] for r in res)
     violations = []
@@ -171,7 +193,7 @@ def run(tier, seed):
         "1 chunk over all contents, 2 chunks over full x reduced contents, 3 chunks over reduced contents; every plan = per "
         "chunk every prefix length x every sequence of <=2 surplus reads, then next_chunk; in-prefix reads must equal the "
         "written (sanitised cp1252) values, surplus reads after a complete prefix must be 0/empty, the output contains "
-        "exactly chunks-1 break bytes",
+        "exactly chunks-1 break bytes; plus a length ladder: strings of 8..300 characters containing a y-diaeresis in the first of three chunks",
         "samples": [{"chunks": [[["char", 252], ["str", "ÿ"]], [], [["int", P4 - 1]]], "plans": [[1, ["get_int"]], [0, ["get_string"]], [1, []]]}],
     }
     return {"coverage": coverage, "violations": violations}
